@@ -17,7 +17,7 @@ func init() {
 		"(3) every Read's byte count is added to the round's total, and at the end of a round the job's offset advances by that total and the job's tail is a private copy of the unterminated remainder, which the next round starts from; "+
 		"(4) after every line - emitted or skipped - the accumulation buffer is emptied and the skip flag is false before the next line is parsed; "+
 		"(5) the file position, the job's offset and the job's tail have no other writers: Seek only inside Job.seek, which records the result; no other function of the package reads through an *os.File; "+
-		"(6) a line is dropped for size only when the accumulated length plus the line's length exceeds the configured maximum. "+
+		"(6) a line is dropped for size only when the accumulated length plus the line's length exceeds the configured maximum, and the pipeline's own size check (checkInputBytes) refuses, cuts or passes under exactly its documented guards with result shape bytes[:max](+newline); "+
 		"NOT decided: that these add up to the stated behaviour for every content, buffer size and append schedule (no arithmetic over contents is evaluated); truncation and rotation histories; compressed files.",
 		"go/types, go/ssa and x/tools call resolution are correct",
 		"bytes.IndexByte returns the index of the first occurrence or -1; Read returns the number of bytes placed at the start of the buffer")
@@ -27,6 +27,7 @@ func init() {
 	reg("C06", "C06.R4", "E2", "after every line the accumulation buffer is emptied and the skip flag is false", 2, ruleFilePerLineReset)
 	reg("C06", "C06.R5", "E1", "file position / Job.curOffset / Job.tail ownership", 4, ruleFilePositionOwnership)
 	reg("C06", "C06.R6", "E6", "size-limit skip compares accumulated + line length with the configured maximum", 1, ruleFileSizeSkip)
+	reg("C06", "C06.R7", "E2", "the pipeline's size check refuses / cuts / passes a line under exactly the documented guards and never writes past it (same rule as C20.R2)", 4, ruleCheckInputBytes)
 }
 
 // ---------- linear integer forms ----------
